@@ -363,7 +363,9 @@ def run(case):
         trace1 = res1["trace"]
         import time as _t
         t_case = _t.time()
-        case_budget = 40.0 if not case.get("all_steps") else 900.0
+        # wall-clock cap per case (which crash states get explored within it depends on the machine's load;
+        # each explored state is decided deterministically); the determinism self-test lifts it
+        case_budget = case.get("case_budget") or (40.0 if not case.get("all_steps") else 900.0)
         rng.shuffle(todo)                   # a truncated case still samples all steps and effect kinds
         for n_done, s in enumerate(todo):
             if _t.time() - t_case > case_budget:
